@@ -4,8 +4,14 @@
   The theorems are about the executable model of the comment lexer / grammar / helper functions
   (`Model/Comment.lean`, mirrors `parsers/comments/*`) and of link binding and tag validation in whole
   programs (`Model/CommentDocs.lean`). The model is tied to the code by the `comments` and `compile`
-  engines (Drv/C16.lean). Two parts of the property are *refuted* for the pinned tree (D-16a, D-16b):
-  the refutations are `example`s below and known findings of the correspondence run.
+  engines (Drv/C16.lean).
+
+  The two defects this property used to have in `sanitize_message_lines` (D-16a: indentation measured and removed
+  in UTF-8 bytes; D-16b: an all-whitespace first text counted as indentation 0) are repaired in /repo ("fix: measure
+  and strip the common indentation of doc comments in characters"). The model mirrors the repaired loops and
+  `sanitize_eq_spec` proves that they compute the property's rule for every list of lines.
+  `Gen.sanitizeCountsChars` (read off grammar.rs on every run) selects the repaired reading of the model: should the
+  source go back to byte offsets, `sanitize_eq_spec` and everything that rests on it stop compiling.
 -/
 import SlicecVerif.Lemmas.Comment
 import SlicecVerif.Model.CommentDocs
@@ -16,87 +22,160 @@ open Slicec
 
 /-! ### indentation -/
 
-/-- **Common indentation.** For lines whose first component is a text made of `k` ASCII spaces followed by a
-    non-blank character (empty lines allowed anywhere), `sanitize_message_lines` succeeds and
-    * removes exactly `m` columns from every non-empty line, where `m` is the minimum indentation over the
-      non-empty lines (`m ≤ k` for each of them, and some line has `k = m`),
-    * keeps everything else: the rest of the first text, all further components, one `"\n"` text after every
-      line, an empty line becoming just `"\n"` (line breaks preserved). -/
-theorem sanitize_common_indent (ls : List ILine) (h : ∀ l ∈ ls, WellFormedI l) :
-    let m := (minIndent none ls).getD 0
-    sanitizeMessageLines (ls.map ILine.toMLine) = .ok (ls.flatMap (ILine.stripped m)) ∧
-    (∀ k body rest, some (k, body, rest) ∈ ls → m ≤ k) ∧
-    ((∃ k body rest, some (k, body, rest) ∈ ls) → ∃ k body rest, some (k, body, rest) ∈ ls ∧ k = m) := by
+/-- **The code's loops compute the property's rule.** For *every* list of lines — empty lines, whitespace-only lines,
+    lines that start with a link, whitespace followed by a link, any of the 25 whitespace code points in any mixture of
+    UTF-8 widths — `sanitize_message_lines` (first loop with the skip rule and the link break, `usize::MAX` ↦ 0, second loop
+    through `char_indices().nth(..)` and `replace_range`) returns normally, and its result is the declarative rule
+    `sanitizeSpec`: every line loses the first `commonIndent lines` characters of its first text, keeps everything else and
+    is closed by one `"\n"` text (an empty line becomes just `"\n"`). -/
+theorem sanitize_eq_spec (ls : List MLine) : sanitizeMessageLines ls = .ok (sanitizeSpec ls) := by
+  simp only [sanitizeMessageLines, Gen.sanitizeCountsChars, if_true, normaliseCommon_commonWs, stripLines_endIndex, sanitizeSpec]
+
+/-- **Why `replace_range` cannot panic any more.** The end index the second loop computes
+    (`char_indices().nth(n).unwrap_or(len)`) is, for every text and every count, the UTF-8 length of the text's first `n`
+    characters: a character boundary within the text. The model of `replace_range(..i, "")` (`dropBytes`) returns normally
+    exactly on such indices (`dropBytes_isSome_iff`), and what it leaves is the text without its first `n` characters
+    (all of it gone when it has fewer). -/
+theorem strip_index_is_boundary (t : Str) (n : Nat) :
+    OnBoundary t (endIndex t n) ∧ endIndex t n = utf8Len (t.take n) ∧ dropBytes t (endIndex t n) = some (t.drop n) :=
+  ⟨endIndex_onBoundary t n, endIndex_eq t n, dropBytes_endIndex t n⟩
+
+/-- **No panic, no error, for all inputs** (was: an if-and-only-if condition with a counterexample, D-16a). -/
+theorem sanitize_no_panic (ls : List MLine) :
+    (∃ m, sanitizeMessageLines ls = .ok m) ∧ (∀ s, sanitizeMessageLines ls ≠ .panic s) ∧ (∀ e, sanitizeMessageLines ls ≠ .err e) := by
+  rw [sanitize_eq_spec]
+  exact ⟨⟨_, rfl⟩, fun s h => (by cases h), fun e h => (by cases h)⟩
+
+/-- **Common indentation, all line lists.** With `m` the number of characters `sanitize_message_lines` removes:
+    * the result is every line without the first `m` characters of its first text, everything else kept, one `"\n"` text per
+      line (line breaks preserved);
+    * `m` is at most the indentation of every line that has one (`lineIndent`: the number of leading whitespace characters
+      of a line with content; 0 for a line that starts with a link; the whole length of an all-whitespace text that is
+      followed by a link; none for an empty or whitespace-only line) and is the indentation of some such line; it is 0
+      when no line has content;
+    * only whitespace is removed: the first `m` characters of every line's first text are whitespace characters. -/
+theorem sanitize_common_indent (ls : List MLine) :
+    let m := commonIndent ls
+    sanitizeMessageLines ls = .ok (ls.flatMap (lineWithout m)) ∧
+    (∀ l ∈ ls, ∀ k, lineIndent l = some k → m ≤ k) ∧
+    ((∃ l ∈ ls, (lineIndent l).isSome) → ∃ l ∈ ls, lineIndent l = some m) ∧
+    ((∀ l ∈ ls, lineIndent l = none) → m = 0) ∧
+    (∀ t rest, some (Comp.text t, rest) ∈ ls → (t.take m).all isWsC = true) := by
   intro m
-  have hle : ∀ k body rest, some (k, body, rest) ∈ ls → m ≤ k := by
-    intro k body rest hm
-    obtain ⟨m', hm', hle⟩ := minIndent_le_mem ls none k body rest hm
+  have hle : ∀ l ∈ ls, ∀ k, lineIndent l = some k → m ≤ k := by
+    intro l hl k hk
+    obtain ⟨m', hm', hle⟩ := minOpt_le (ls.map lineIndent) k (hk ▸ List.mem_map_of_mem hl)
+    simp [m, commonIndent, hm', hle]
+  refine ⟨sanitize_eq_spec ls, hle, ?_, ?_, ?_⟩
+  · rintro ⟨l, hl, hsome⟩
+    obtain ⟨k, hk⟩ := Option.isSome_iff_exists.mp hsome
+    obtain ⟨m', hm', _⟩ := minOpt_le (ls.map lineIndent) k (hk ▸ List.mem_map_of_mem hl)
+    obtain ⟨l', hl', hlm⟩ := List.mem_map.mp (minOpt_mem _ _ hm')
+    exact ⟨l', hl', by simp [m, commonIndent, hm', hlm]⟩
+  · intro hnone
+    have := minOpt_none (ls.map lineIndent) (by
+      intro x hx
+      obtain ⟨l, hl, rfl⟩ := List.mem_map.mp hx
+      exact hnone l hl)
+    simp [m, commonIndent, this]
+  · intro t rest hmem
+    cases hall : t.all isWsC with
+    | true => exact take_all_ws_of_all t m hall
+    | false =>
+      have hk : lineIndent (some (Comp.text t, rest)) = some (leadWs t) := by simp [lineIndent, hall]
+      exact take_all_ws t m (hle _ hmem _ hk)
+
+/-- **Common indentation, written lines.** For lines written as a run of whitespace `ws` — any of the 25 code points, any
+    mixture of UTF-8 widths — followed by a body that starts with a non-blank character (and by further components; empty
+    lines allowed anywhere), the number of characters removed is `m`, the minimum of `ws.length` over the non-empty lines
+    (`m ≤ ws.length` for each, attained by one), every non-empty line keeps `ws.drop m ++ body` and all further
+    components. -/
+theorem sanitize_common_indent_written (ls : List ILine) (h : ∀ l ∈ ls, WellFormedI l) :
+    let m := (minOpt (ls.map ILine.indent)).getD 0
+    sanitizeMessageLines (ls.map ILine.toMLine) = .ok (ls.flatMap (ILine.stripped m)) ∧
+    (∀ ws body rest, some (ws, body, rest) ∈ ls → m ≤ ws.length) ∧
+    ((∃ ws body rest, some (ws, body, rest) ∈ ls) → ∃ ws body rest, some (ws, body, rest) ∈ ls ∧ ws.length = m) := by
+  intro m
+  have hm : commonIndent (ls.map ILine.toMLine) = m := by simp [m, commonIndent, map_lineIndent_written ls h]
+  have hle : ∀ ws body rest, some (ws, body, rest) ∈ ls → m ≤ ws.length := by
+    intro ws body rest hmem
+    obtain ⟨m', hm', hle⟩ := minOpt_le (ls.map ILine.indent) ws.length (List.mem_map.mpr ⟨_, hmem, rfl⟩)
     simp [m, hm', hle]
   refine ⟨?_, hle, ?_⟩
-  · unfold sanitizeMessageLines
-    rw [commonWs_eq_minIndent ls h none, stripLines_spaces ls m hle]
-  · rintro ⟨k, body, rest, hm⟩
-    obtain ⟨m', hm', _⟩ := minIndent_le_mem ls none k body rest hm
-    rcases minIndent_attained ls none m' hm' with h0 | ⟨k', b, r, hk, rfl⟩
-    · simp at h0
-    · exact ⟨k', b, r, hk, by simp [m, hm']⟩
+  · rw [sanitize_eq_spec, sanitizeSpec, hm, List.flatMap_map]
+    congr 1
+    apply flatMap_congr_mem
+    intro l hl
+    apply lineWithout_written
+    intro k hk
+    match l, hk with
+    | some (ws, body, rest), hk => simp [ILine.indent] at hk; subst hk; exact hle ws body rest hl
+  · rintro ⟨ws, body, rest, hmem⟩
+    obtain ⟨m', hm', _⟩ := minOpt_le (ls.map ILine.indent) ws.length (List.mem_map.mpr ⟨_, hmem, rfl⟩)
+    obtain ⟨l, hl, hlm⟩ := List.mem_map.mp (minOpt_mem _ _ hm')
+    match l, hlm with
+    | some (ws', b', r'), hlm =>
+      simp [ILine.indent] at hlm
+      exact ⟨ws', b', r', hl, by simp [m, hm', hlm]⟩
 
-/-- **No panic, exact condition.** `sanitize_message_lines` never reports an error; it returns normally if and only if the
-    common byte index it computed (`commonWs`) is a character boundary of the first text of *every* non-empty line
-    that starts with a text — otherwise `replace_range` panics. This is the weakest condition: it is an equivalence. -/
-theorem sanitize_no_panic (ls : List MLine) :
-    (∃ m, sanitizeMessageLines ls = .ok m) ↔
-      ∀ t rest, some (Comp.text t, rest) ∈ ls → OnBoundary t ((commonWs none ls).getD 0) := by
-  unfold sanitizeMessageLines
-  have key := stripLines_isSome_iff ((commonWs none ls).getD 0) ls
-  constructor
-  · rintro ⟨m, hm⟩ t rest hmem
-    cases hs : stripLines ((commonWs none ls).getD 0) ls with
-    | none => simp [hs] at hm
-    | some x =>
-      have := key.mp (by simp [hs]) t rest hmem
-      exact (dropBytes_isSome_iff t _).mp this
-  · intro h
-    have : (stripLines ((commonWs none ls).getD 0) ls).isSome :=
-      key.mpr (fun t rest hmem => (dropBytes_isSome_iff t _).mpr (h t rest hmem))
-    obtain ⟨x, hx⟩ := Option.isSome_iff_exists.mp this
-    exact ⟨x, by simp [hx]⟩
+/-- **The comment parser as it is = the comment parser with the property's stripping rule**, on every input (what the
+    correspondence run compares the real parser with is therefore the property's own demand). -/
+theorem parse_eq_spec (lines : List Str) : parseComment lines = parseCommentSpec lines := by
+  have : sanitizeMessageLines = fun ls => .ok (sanitizeSpec ls) := funext sanitize_eq_spec
+  simp [parseComment, parseCommentSpec, this]
 
-/-- the only other outcome is the panic in `replace_range` (never an error value) -/
-theorem sanitize_ok_or_panic (ls : List MLine) :
-    (∃ m, sanitizeMessageLines ls = .ok m) ∨ sanitizeMessageLines ls = .panic "replace_range" := by
-  unfold sanitizeMessageLines
-  cases stripLines ((commonWs none ls).getD 0) ls with
-  | none => right; rfl
-  | some x => left; exact ⟨x, rfl⟩
+/-- **A doc comment cannot crash the compiler.** `parse_doc_comment` returns normally for every list of raw lines: the only
+    panic sites of the comment parser are `Lexer::new` on an empty comment (not called: no lines, no parser) and
+    `replace_range` (`sanitize_no_panic`). -/
+theorem attach_total (raw : List Str) : ∃ a, attach raw = .ok a := by
+  have hs : SanTotal sanitizeMessageLines := fun ls s => (sanitize_no_panic ls).2.1 s
+  cases raw with
+  | nil => exact ⟨_, rfl⟩
+  | cons l ls =>
+    simp only [attach, attachG]
+    cases hp : parseCommentG sanitizeMessageLines (l :: ls) with
+    | ok c => exact ⟨_, rfl⟩
+    | err e => exact ⟨_, rfl⟩
+    | panic s => exact absurd hp (parseCommentG_no_panic _ hs l ls s)
 
-/-- ASCII-space indentation never panics (corollary of `sanitize_common_indent`). -/
-theorem sanitize_no_panic_ascii (ls : List ILine) (h : ∀ l ∈ ls, WellFormedI l) :
-    ∃ m, sanitizeMessageLines (ls.map ILine.toMLine) = .ok m :=
-  ⟨_, (sanitize_common_indent ls h).1⟩
-
-/-- **D-16a, refutation of "no panic" for mixed-width indentation**: one line indented with a space (1 byte), the next
-    with U+3000 (3 bytes): the common byte index 1 is inside the second line's first character. -/
-example : sanitizeMessageLines [some (.text [' ', 'x'], []), some (.text ['\u3000', 'y'], [])] = .panic "replace_range" := by
-  decide
-
-/-- the same through the whole comment parser: `/// x` / `///　y` panics instead of yielding a comment or a lint -/
-example : parseComment [[' ', 'x'], ['\u3000', 'y']] = .panic "replace_range" := by decide
-
-/-- **D-16a, second face**: when the byte index happens to be a boundary the amount removed is counted in bytes, not in
-    characters: one U+00A0 (2 bytes) on the first line makes *two* spaces disappear from the second. -/
-example : sanitizeMessageLines [some (.text ['\u00A0', 'x'], []), some (.text [' ', ' ', 'y'], [])]
+/-- the former witness of D-16a (a space on one line, U+3000 on the next: byte index 1 was inside the second line's first
+    character and `replace_range` panicked): one character is removed from each line -/
+example : sanitizeMessageLines [some (.text [' ', 'x'], []), some (.text ['\u3000', 'y'], [])]
     = .ok [.text ['x'], nl, .text ['y'], nl] := by decide
 
-/-- **D-16b, refutation of "common indentation removed"**: a line that starts with an inline link after its indentation
-    has an all-whitespace first text, whose index is 0 (`unwrap_or_default`): nothing is stripped from any line. -/
+/-- the same through the whole comment parser: `/// x` / `///　y` is a comment with overview `x⏎y⏎` -/
+example : parseComment [[' ', 'x'], ['\u3000', 'y']]
+    = .ok { overview := some [.text ['x'], nl, .text ['y'], nl], params := [], returns := [], see := [] } := by decide
+
+/-- the former second face of D-16a (one U+00A0, two bytes, made *two* spaces disappear from the next line): one character
+    is removed, the second space of line 2 stays -/
+example : sanitizeMessageLines [some (.text ['\u00A0', 'x'], []), some (.text [' ', ' ', 'y'], [])]
+    = .ok [.text ['x'], nl, .text [' ', 'y'], nl] := by decide
+
+/-- character order and byte order of the indentations disagree (U+3000: 1 character, 3 bytes; two spaces: 2 characters,
+    2 bytes): the minimum is taken over characters -/
+example : sanitizeMessageLines [some (.text ['\u3000', 'x'], []), some (.text [' ', ' ', 'y'], [])]
+    = .ok [.text ['x'], nl, .text [' ', 'y'], nl] := by decide
+
+/-- the former witness of D-16b (whitespace in front of a link was measured as 0 and nothing was stripped): the two
+    spaces are removed from both lines; the link line keeps an empty text in front of the link -/
 example : parseComment [[' ', ' ', 'a'], [' ', ' ', '{', '@', 'l', 'i', 'n', 'k', ' ', 'S', '}']]
-    = .ok { overview := some [.text [' ', ' ', 'a'], nl, .text [' ', ' '], .link ['S'], nl], params := [], returns := [], see := [] } := by
+    = .ok { overview := some [.text ['a'], nl, .text [], .link ['S'], nl], params := [], returns := [], see := [] } := by
   decide
 
-/-- non-vacuity of `sanitize_common_indent`: two lines indented by 3 and 1, with an empty line between them -/
-example : sanitizeMessageLines ([some (3, ['a'], []), none, some (1, ['b'], [.link ['S']])].map ILine.toMLine)
-    = .ok [.text [' ', ' ', 'a'], nl, nl, .text ['b'], .link ['S'], nl] := by decide
+/-- a whitespace-only line between indented lines (an editor's trailing blank) no longer disables the stripping, whether it
+    is shorter or longer than the common indentation; a message of whitespace-only lines is left as it is -/
+example :
+    sanitizeMessageLines [some (.text [' ', ' ', 'a'], []), some (.text [' '], []), some (.text [' ', ' ', ' ', 'b'], []),
+                          some (.text [' ', '\t', ' ', ' '], [])]
+      = .ok [.text ['a'], nl, .text [], nl, .text [' ', 'b'], nl, .text [' ', ' '], nl] ∧
+    sanitizeMessageLines [some (.text [' ', ' '], []), none, some (.text ['\u3000'], [])]
+      = .ok [.text [' ', ' '], nl, nl, .text ['\u3000'], nl] := by decide
+
+/-- non-vacuity of `sanitize_common_indent_written`: indentations of 3 and 1 characters in mixed widths, an empty line
+    between them -/
+example : sanitizeMessageLines ([some ([' ', '\u00A0', '\u3000'], ['a'], []), none, some (['\u2003'], ['b'], [.link ['S']])].map ILine.toMLine)
+    = .ok [.text ['\u00A0', '\u3000', 'a'], nl, nl, .text ['b'], .link ['S'], nl] := by decide
 
 /-! ### tags -/
 
@@ -147,7 +226,8 @@ theorem lexer_error_is_failure (san : Sanitizer) (lines : List Str) (e : CLexErr
 /-- **Malformed is a warning.** Every failure of the lexer or the grammar (`parseCommentG … = .err _`) reaches the Slice
     parser as: no comment, and exactly one diagnostic, the lint `MalformedDocComment`, whose level is Warning.
     Conversely the only ways `parse_doc_comment` attaches something are: no lines → nothing, no lint; success → the
-    comment, no lint; failure → nothing and that one lint. (A panic is not a value of this function: see D-16a.)
+    comment, no lint; failure → nothing and that one lint. (A panic is not a value of this function; `attach_total`:
+    with the code's sanitizer there is none.)
     The element itself and its siblings cannot be affected: `attachG` is a function of the element's own raw lines
     only and its result has no other component than these two (`siblings_preserved` states what that means for the
     name table and the element list). -/
@@ -242,7 +322,7 @@ def lineOK : List Comp → Bool
       r.all (fun c => match c with | .text t => plainText t | .link _ => true) &&
       -- two texts next to each other would be read back as one
       ((Comp.text s :: r).zip r).all (fun p => match p with | (.text _, .text _) => false | _ => true)
-  | .link _ :: _ => false      -- a line that starts with a link reads back unstripped (D-16b): only at indentation 0, excluded here
+  | .link _ :: _ => false      -- written after an indentation, a line that starts with a link reads back with an empty text in front of the link
 
 def idOK (s : Str) : Bool :=
   match s with
@@ -275,53 +355,56 @@ def Renderable (c : DocC) : Bool :=
   c.see.all scopedOK
 
 /-- **Round trip, full statement** (not proved in general; exercised by the correspondence families, whose comments are
-    rendered from pieces and compared with the real parser): every renderable comment, written at any ASCII indentation,
-    reads back as itself. -/
+    rendered from pieces and compared with the real parser): every renderable comment, written after any indentation made
+    of whitespace characters (any of the 25 code points), reads back as itself. -/
 def comment_roundtrip_full : Prop :=
-  ∀ (c : DocC) (k : Nat), Renderable c = true → (c.overview.isSome ∨ c.params ≠ [] ∨ c.returns ≠ [] ∨ c.see ≠ []) →
-    parseComment (renderComment c (spaces k)) = .ok c
+  ∀ (c : DocC) (ind : Str), ind.all isWsC = true → Renderable c = true →
+    (c.overview.isSome ∨ c.params ≠ [] ∨ c.returns ≠ [] ∨ c.see ≠ []) →
+    parseComment (renderComment c ind) = .ok c
 
 /-- **Round trip, proved fragment**: overview comments made of plain text lines (no links, no tags; empty lines and lines
-    with additional indentation of their own allowed, some non-empty line having none), written at *any* ASCII
-    indentation `k`: the parser returns exactly the comment that was rendered — the written lines minus their common
-    indentation, one `"\n"` text per line. -/
-theorem comment_roundtrip_partial (ls : List PLine) (k : Nat) (hne : ls ≠ []) (hwf : ∀ l ∈ ls, l.WF)
+    with additional indentation of their own allowed, some non-empty line having none), written after *any* indentation
+    `ind` made of whitespace characters — ASCII or not, of any mixture of UTF-8 widths: the parser returns exactly the
+    comment that was rendered — the written lines minus their common indentation, one `"\n"` text per line. -/
+theorem comment_roundtrip_partial (ls : List PLine) (ind : Str) (hind : ind.all isWsC = true) (hne : ls ≠ []) (hwf : ∀ l ∈ ls, l.WF)
     (hzero : ∀ j b, some (j, b) ∈ ls → ∃ b0, some (0, b0) ∈ ls) :
-    parseComment (renderComment (plainDoc ls) (spaces k)) = .ok (plainDoc ls) := by
-  rw [render_plainDoc ls k hwf]
+    parseComment (renderComment (plainDoc ls) ind) = .ok (plainDoc ls) := by
+  rw [render_plainDoc ls ind hwf]
   unfold parseComment
-  rw [parseCommentG_nonempty _ _ (by simpa using hne), lexComment_plain k ls hwf]
+  rw [parseCommentG_nonempty _ _ (by simpa using hne), lexComment_plain ind hind ls hwf]
   simp only
-  rw [parseLines_plain k ls _ (by have := length_le_toks k ls; omega)]
+  rw [parseLines_plain ind ls _ (by have := length_le_toks ind ls; omega)]
   simp only
   rw [reduceLines_end _ _ (by simpa using hne)]
-  have hmap : (ls.map fun l => (l.iline k).toMLine) = (ls.map (PLine.iline k)).map ILine.toMLine := by simp
-  have hwfI : ∀ l ∈ ls.map (PLine.iline k), WellFormedI l := by
+  have hmap : (ls.map fun l => (l.iline ind).toMLine) = (ls.map (PLine.iline ind)).map ILine.toMLine := by simp
+  have hwfI : ∀ l ∈ ls.map (PLine.iline ind), WellFormedI l := by
     intro l hl
     obtain ⟨pl, hpl, rfl⟩ := List.mem_map.mp hl
     match pl, hwf pl hpl with
     | none, _ => trivial
-    | some (j, b), hb => exact hb.startsNonWs
-  obtain ⟨hs, hle, hatt⟩ := sanitize_common_indent (ls.map (PLine.iline k)) hwfI
+    | some (j, b), hb => exact ⟨all_ws_append_spaces ind hind j, hb.startsNonWs⟩
+  obtain ⟨hs, hle, hatt⟩ := sanitize_common_indent_written (ls.map (PLine.iline ind)) hwfI
   rw [hmap, hs]
-  -- the common indentation is exactly `k`
-  have hstrip : ∀ l ∈ ls, ILine.stripped ((minIndent none (ls.map (PLine.iline k))).getD 0) (l.iline k) = l.comps ++ [nl] := by
+  -- the common indentation is exactly the length of `ind`
+  have hstrip : ∀ l ∈ ls, ILine.stripped ((minOpt ((ls.map (PLine.iline ind)).map ILine.indent)).getD 0) (l.iline ind) = l.comps ++ [nl] := by
     intro l hl
     match l with
     | none => rfl
     | some (j, b) =>
       obtain ⟨b0, hb0⟩ := hzero j b hl
-      have h1 := hle (k + 0) b0 [] (List.mem_map.mpr ⟨some (0, b0), hb0, rfl⟩)
-      obtain ⟨k', b', r', hm', hk'⟩ := hatt ⟨k + j, b, [], List.mem_map.mpr ⟨some (j, b), hl, rfl⟩⟩
+      have h1 := hle (ind ++ spaces 0) b0 [] (List.mem_map.mpr ⟨some (0, b0), hb0, rfl⟩)
+      obtain ⟨ws', b', r', hm', hk'⟩ := hatt ⟨ind ++ spaces j, b, [], List.mem_map.mpr ⟨some (j, b), hl, rfl⟩⟩
       obtain ⟨pl, _, hpl⟩ := List.mem_map.mp hm'
-      have h2 : k ≤ k' := by
+      have h2 : ind.length ≤ ws'.length := by
         match pl with
         | none => simp [PLine.iline] at hpl
-        | some (j2, b2) => simp [PLine.iline] at hpl; omega
-      have hm : (minIndent none (ls.map (PLine.iline k))).getD 0 = k := by omega
+        | some (j2, b2) => simp [PLine.iline] at hpl; rw [← hpl.1]; simp
+      have e0 : (ind ++ spaces 0).length = ind.length := by simp [spaces]
+      rw [e0] at h1
+      have hm : (minOpt ((ls.map (PLine.iline ind)).map ILine.indent)).getD 0 = ind.length := by omega
       rw [hm]
       simp [PLine.iline, ILine.stripped, PLine.comps]
-  have hflat : (ls.map (PLine.iline k)).flatMap (ILine.stripped ((minIndent none (ls.map (PLine.iline k))).getD 0)) = plainMsg ls := by
+  have hflat : (ls.map (PLine.iline ind)).flatMap (ILine.stripped ((minOpt ((ls.map (PLine.iline ind)).map ILine.indent)).getD 0)) = plainMsg ls := by
     rw [List.flatMap_map]
     unfold plainMsg
     exact flatMap_congr_mem _ _ _ hstrip
@@ -332,20 +415,29 @@ theorem comment_roundtrip_partial (ls : List PLine) (k : Nat) (hne : ls ≠ []) 
 example : parseComment (renderComment (plainDoc [some (0, "Hello, world".toList), none, some (2, "x: y".toList)]) (spaces 4))
     = .ok (plainDoc [some (0, "Hello, world".toList), none, some (2, "x: y".toList)]) := by decide
 
-/-- the full statement is not vacuous either: a renderable comment with links and all three kinds of tags reads back -/
+/-- the same written after a tab, U+00A0 and U+3000 (1-, 2- and 3-byte whitespace) -/
+example : parseComment (renderComment (plainDoc [some (0, "Hello, world".toList), none, some (2, "x: y".toList)]) ['\t', '\u00A0', '\u3000'])
+    = .ok (plainDoc [some (0, "Hello, world".toList), none, some (2, "x: y".toList)]) := by decide
+
+/-- the full statement is not vacuous either: a renderable comment with links and all three kinds of tags reads back, after
+    ASCII and after mixed-width indentation -/
 example :
     let c : DocC := { overview := some [.text "See ".toList, .link "A::B".toList, .text " now".toList, nl, nl, .text "  more".toList, nl],
                       params := [("x".toList, [.text "the x".toList, nl, .text "cont".toList, nl])],
                       returns := [(none, []), (some "r".toList, [nl, .text "later".toList, nl])],
                       see := ["::M::S".toList] }
-    Renderable c = true ∧ parseComment (renderComment c (spaces 3)) = .ok c := by decide
+    Renderable c = true ∧ parseComment (renderComment c (spaces 3)) = .ok c ∧
+      parseComment (renderComment c [' ', '\u3000', '\u0085']) = .ok c := by decide
 
 end Slicec.C16
 
-#print axioms Slicec.C16.sanitize_common_indent
+#print axioms Slicec.C16.sanitize_eq_spec
+#print axioms Slicec.C16.strip_index_is_boundary
 #print axioms Slicec.C16.sanitize_no_panic
-#print axioms Slicec.C16.sanitize_ok_or_panic
-#print axioms Slicec.C16.sanitize_no_panic_ascii
+#print axioms Slicec.C16.sanitize_common_indent
+#print axioms Slicec.C16.sanitize_common_indent_written
+#print axioms Slicec.C16.parse_eq_spec
+#print axioms Slicec.C16.attach_total
 #print axioms Slicec.C16.tags_in_order
 #print axioms Slicec.C16.lexer_error_is_failure
 #print axioms Slicec.C16.malformed_is_warning
